@@ -120,6 +120,21 @@ def obligations():
             out.append(('C12/inventory/%s.%s/mutable_is_reset' % loc, not sites,
                         'mutable class-level object %s.%s = %s is not reset by PEP._reset_classes%s' % (
                             loc[0], loc[1], init[:40], (' and is mutated at %s' % sites[:3]) if sites else ' but is mutated nowhere (constant table)')))
+    # a mutable default value of a parameter is one more process-level object, and one no reset can reach
+    import ast as _ast0, os as _os0, glob as _glob0
+    root0 = _os0.environ.get('PEPIT_REPO', '/repo')
+    mutable_defaults = []
+    for f in sorted(_glob0.glob(_os0.path.join(root0, 'PEPit', '**', '*.py'), recursive=True)):
+        if _os0.sep + 'examples' + _os0.sep in f:
+            continue
+        for n in _ast0.walk(_ast0.parse(open(f).read())):
+            if isinstance(n, (_ast0.FunctionDef, _ast0.AsyncFunctionDef, _ast0.Lambda)):
+                for d in n.args.defaults + [x for x in n.args.kw_defaults if x is not None]:
+                    if isinstance(d, (_ast0.List, _ast0.Dict, _ast0.Set, _ast0.ListComp, _ast0.DictComp, _ast0.SetComp)) or (
+                            isinstance(d, _ast0.Call) and isinstance(d.func, _ast0.Name) and d.func.id in ('list', 'dict', 'set')):
+                        mutable_defaults.append('%s:%d %s' % (_os0.path.relpath(f, root0), d.lineno, getattr(n, 'name', 'lambda')))
+    out.append(('C12/inventory/parameter_defaults/no_mutable_default', not mutable_defaults,
+                'no parameter of a function of the package has a list / dict / set as default value' + ((': found ' + ', '.join(mutable_defaults[:4])) if mutable_defaults else '')))
     out.append(('C12/inventory/PEP.__init__/resets_first', a['init_first'] is not None and '_reset_classes()' in a['init_first'],
                 'first statement of PEP.__init__: %s' % a['init_first']))
     # the reset happens when a model is created, and only then (a reset triggered by anything else - garbage collection, a solve - would wipe the registries
